@@ -12,6 +12,7 @@
 package c10
 
 import (
+	"cmp"
 	"fmt"
 	"math"
 	"runtime/debug"
@@ -733,6 +734,121 @@ func propLong(c LongCase, r *pbt.R) error {
 
 // ---------------------------------------------------------------------------
 
+// ---------------------------------------------------------------------------
+// other instantiations: the same map semantics with string, float64 and uint8 keys and struct values
+
+// TypesCase: Ops are (kind, key code) pairs: kind 0 Put(fresh value), 1 Remove, 2 Get; the key code c (0..N-1) is mapped to a
+// key of the chosen type by an order-preserving function. KT: 0 string ("k007"), 1 float64 (c/4 - 3, incl. -0.25, 0),
+// 2 uint8 (3*c), 3 string with a multi-byte prefix ("é" + ...).
+type TypesCase struct {
+	KT  int      `json:"kt"`
+	N   int      `json:"n"`
+	Ops [][2]int `json:"ops"`
+}
+
+type tval struct {
+	A int
+	B string
+}
+
+func runTypes[K cmp.Ordered](c TypesCase, mk func(int) K, r *pbt.R) error {
+	n := c.N
+	if n < 1 || n > 512 || len(c.Ops) > 5000 {
+		return nil
+	}
+	t := btree.New[K, tval]()
+	model := map[int]tval{}
+	ever := map[int]bool{}
+	next := 0
+	name := []string{"string", "float64", "uint8", "string with multi-byte prefix"}[c.KT]
+	for i, op := range c.Ops {
+		k := ((op[1] % n) + n) % n
+		switch ((op[0] % 3) + 3) % 3 {
+		case 0:
+			next++
+			v := tval{A: next, B: fmt.Sprint("v", next)}
+			t.Put(mk(k), v)
+			model[k] = v
+			ever[k] = true
+		case 1:
+			t.Remove(mk(k))
+			delete(model, k)
+		default:
+			got, ok := t.Get(mk(k))
+			want, wok := model[k]
+			if ok != wok || (ok && got != want) {
+				return fmt.Errorf("btree.New[%s, struct] after %d of ops %v: Get(%v) = (%v, %v), want (%v, %v)", name, i+1, c.Ops, mk(k), got, ok, want, wok)
+			}
+		}
+		if t.Size() != len(model) || t.IsEmpty() != (len(model) == 0) {
+			return fmt.Errorf("btree.New[%s, struct] after %d of ops %v: Size() = %d, IsEmpty() = %v, want %d keys", name, i+1, c.Ops, t.Size(), t.IsEmpty(), len(model))
+		}
+	}
+	for k := 0; k < n; k++ {
+		got, ok := t.Get(mk(k))
+		want, wok := model[k]
+		if ok != wok || (ok && got != want) {
+			return fmt.Errorf("btree.New[%s, struct] after ops %v: Get(%v) = (%v, %v), want (%v, %v)", name, c.Ops, mk(k), got, ok, want, wok)
+		}
+	}
+	var keys []K
+	bad := ""
+	t.Traverse(func(k K, v tval) {
+		if len(keys) <= len(model)+4 {
+			keys = append(keys, k)
+		}
+	})
+	if len(keys) != len(model) {
+		bad = fmt.Sprintf("visits %d keys, want %d", len(keys), len(model))
+	}
+	for i := 1; i < len(keys) && bad == ""; i++ {
+		if !(keys[i-1] < keys[i]) {
+			bad = fmt.Sprintf("visits %v before %v", keys[i-1], keys[i])
+		}
+	}
+	if bad != "" {
+		return fmt.Errorf("btree.New[%s, struct] after ops %v: Traverse %s", name, c.Ops, bad)
+	}
+	if h, e := t.Height(), len(ever); e >= 1 && 1<<uint(h) > maxInt(1, e) {
+		return fmt.Errorf("btree.New[%s, struct] after ops %v: Height() = %d exceeds log2 of the %d distinct keys ever put", name, c.Ops, h, e)
+	}
+	r.NonTrivialIf(len(ever) >= 5, ">= 5 distinct keys (a split happened)")
+	return nil
+}
+
+func maxInt(a, b int) int {
+	if a > b {
+		return a
+	}
+	return b
+}
+
+func typesProp(c TypesCase, r *pbt.R) error {
+	switch ((c.KT % 4) + 4) % 4 {
+	case 0:
+		return runTypes(c, func(i int) string { return fmt.Sprintf("k%03d", i) }, r)
+	case 1:
+		return runTypes(c, func(i int) float64 { return float64(i)/4 - 3 }, r)
+	case 2:
+		return runTypes(c, func(i int) uint8 { return uint8(i % 85 * 3) }, r)
+	default:
+		return runTypes(c, func(i int) string { return "é" + strings.Repeat("z", i/26) + string(rune('a'+i%26)) }, r)
+	}
+}
+
+func typesGen(s pbt.Src, thorough bool) TypesCase {
+	c := TypesCase{KT: s.Intn(4), N: pbt.Pick(s, 3, 6, 20, 80)}
+	if c.KT == 2 && c.N > 80 {
+		c.N = 80
+	}
+	max := 150
+	if thorough {
+		max = 600
+	}
+	c.Ops = pbt.Seq(s, 1, max, func(s pbt.Src) [2]int { return [2]int{pbt.Pick(s, 0, 0, 0, 1, 2), s.Intn(c.N)} })
+	return c
+}
+
 func TestProp(t *testing.T) {
 	// Millions of tiny short-lived cases on a live heap of a few kilobytes: with the default
 	// setting the collector runs every 4 MB of allocation and dominates the run time.
@@ -767,6 +883,12 @@ func TestProp(t *testing.T) {
 			Gen: genLong, Prop: propLong, OutOfEnum: func(LongCase, bool) bool { return true },
 			RapidQuick: 250, RapidThorough: 2500,
 			Fixed: fixedLong(),
+		},
+		&pbt.Check[TypesCase]{
+			Name: "types",
+			Rule: "the same map semantics on other instantiations: btree.New[K, struct] with K = string (\"k007\"), float64 (c/4-3, negative, zero and fractional keys), uint8 and strings with a multi-byte prefix; random Put/Remove/Get sequences of up to 150 (600) operations over 3..80 keys against a Go map: Get, Size, IsEmpty after every operation, ascending Traverse and the height bound at the end. Non-trivial = >= 5 distinct keys.",
+			Gen: typesGen, Prop: typesProp, OutOfEnum: func(TypesCase, bool) bool { return true },
+			RapidQuick: 400, RapidThorough: 5000,
 		},
 	)
 }
